@@ -27,6 +27,7 @@ import (
 	"go/token"
 	"math/rand"
 	"reflect"
+	"runtime/debug"
 	"strings"
 	"testing"
 )
@@ -78,15 +79,30 @@ func c17xfCase(v map[string]any) map[string]string {
 func TestVerifC17XFlag(t *testing.T) {
 	rep := vNewReport("internal/build addGlobalString[With] (-X importpath.name=value): sequences of 1-8 arguments; importpath from 8 paths incl. dots, slashes, non-ASCII and \"main\" (0-3 main packages); name from 7 identifiers incl. non-ASCII; value of 0-6 symbols over {blank, newline, quotes, \\, -, $, (, ), {, }, =, ., /, ASCII, multi-byte, \"x.y=z\"}; skipIfExists fixed per sequence (false = last wins, true/addGlobalString = first wins); 1 in 5 arguments malformed (no '=', no dot before '=', empty package, blank in package, non-identifier name, empty name) which must panic with an error and change nothing. Reference: shadow map. distinct = distinct (mode, #mains, per-argument kind/value-class) sequences")
 	defer rep.Write()
+	defer func() { // a panic of the code under test outside a guarded call is an observation, not a broken check
+		if p := recover(); p != nil {
+			rep.Fail("xflag:panic", "monitor", fmt.Sprintf("panic escaped the monitor: %v\n%s", p, debug.Stack()), nil)
+		}
+	}()
 
 	// fixed cases
 	{
 		conf := &Config{}
-		addGlobalStringWith(conf, "github.com/user/repo.v2/sub.Name=a=b.c = d", nil, false)
-		addGlobalStringWith(conf, "main.V=1", []string{"m/a", "m/b"}, false)
-		addGlobalStringWith(conf, "main.V=2", []string{"m/a"}, false)
-		addGlobalString(conf, "m/b.V=ignored", nil)
-		addGlobalString(conf, "runtime.buildVersion=", nil)
+		for _, st := range []struct {
+			arg   string
+			mains []string
+			short bool
+		}{
+			{"github.com/user/repo.v2/sub.Name=a=b.c = d", nil, false},
+			{"main.V=1", []string{"m/a", "m/b"}, false},
+			{"main.V=2", []string{"m/a"}, false},
+			{"m/b.V=ignored", nil, true},
+			{"runtime.buildVersion=", nil, true},
+		} {
+			if pn := c17xfApply(conf, st.arg, st.mains, st.short, st.short); pn != nil {
+				rep.Fail("xflag:wellformed-rejected", "fixed", fmt.Sprintf("well-formed -X argument %q panicked: %v", st.arg, pn), nil)
+			}
+		}
 		want := map[string]map[string]string{"github.com/user/repo.v2/sub": {"Name": "a=b.c = d"}, "m/a": {"V": "2"}, "m/b": {"V": "1"}, "runtime": {"buildVersion": ""}}
 		rep.Eval(5)
 		if got := c17xfCopy(conf.GlobalRewrites); !reflect.DeepEqual(got, want) {
